@@ -76,6 +76,7 @@ type Obs struct {
 	InstalledSize                                                                    int
 	Deps                                                                             map[string]string   // struct field -> String()
 	DepNames                                                                         map[string][]string // struct field -> possibility names in order
+	Struct                                                                           map[string]string   // every field of deb.Control (by reflection), canonical rendering
 	Values                                                                           map[string]string   // Paragraph.Values
 	Order                                                                            []string
 
@@ -231,6 +232,7 @@ func Open(b []byte) *Session {
 		add("Breaks", len(c.Breaks.Relations), c.Breaks.String(), possNames(c.Breaks.Relations))
 		add("Replaces", len(c.Replaces.Relations), c.Replaces.String(), possNames(c.Replaces.Relations))
 		add("BuiltUsing", len(c.BuiltUsing.Relations), c.BuiltUsing.String(), possNames(c.BuiltUsing.Relations))
+		s.O.Struct = observeStruct(c)
 		s.O.Values = map[string]string{}
 		for k, v := range c.Paragraph.Values {
 			s.O.Values[k] = v
